@@ -953,6 +953,171 @@ example :
     (reload ⟨[pol], "p", [u0, u1]⟩ (some g) heap 9).rls = [some 7, some 9] := by
   refine ⟨by decide, ⟨by decide, by decide⟩, by decide, by decide⟩
 
+/-! ### round 7: the byte limiter and the multi limiter composed with `Limiter.run` -/
+
+/-- **MQTT byte limiter over a whole packet sequence**: running `Limiter.byte` over non-decreasing arrival
+times and non-negative packet sizes extends a reachable (`ReachN`) history by exactly (time, size, flag
+returned by `Limiter.run`) per packet. -/
+theorem byte_run_reachN (p : Policy) : ∀ (arr : List (Int × Int)) {s h lo}, ReachN p s h lo →
+    Sorted lo (arr.map (·.1)) → (∀ a ∈ arr, 0 ≤ a.2) →
+    ∃ s' lo', ReachN p s' (h ++ runHist arr ((Limiter.byte p s).run arr) (·.2)) lo'
+  | [], s, h, lo, r, _, _ => ⟨s, lo, by simpa [runHist] using r⟩
+  | (now, n) :: rest, s, h, lo, r, hs, hn => by
+    simp only [List.map_cons, Sorted] at hs
+    have hn0 : 0 ≤ n := hn (now, n) (List.mem_cons_self ..)
+    obtain ⟨s', lo', r'⟩ := byte_run_reachN p rest (ReachN.step now n r hs.1 hn0) hs.2
+      (fun a ha => hn a (List.mem_cons_of_mem _ ha))
+    refine ⟨s', lo', ?_⟩
+    simpa [runHist, Limiter.run, Limiter.acquire, List.append_assoc] using r'
+
+/-- **`mqtt_bytes_overshoot_lt_packet` over the whole packet sequence of a connection**: for the byte limiter
+`newLimiter` builds (timeout 0), every arrival pattern and every sequence of packet sizes, in every period the
+bytes `Limiter.run` admitted stay below `bytesRate` + the largest admitted packet — and the judge's
+`overshootOk` accepts the run. -/
+theorem mqtt_bytes_run_bound {p : Policy} (hL : 0 < p.L) (hP : 0 < p.P) (hT : p.T = 0)
+    (arr : List (Int × Int)) (hs : Sorted 0 (arr.map (·.1))) (hn : ∀ a ∈ arr, 0 ≤ a.2) :
+    let h := runHist arr ((Limiter.byte p RateLimiter.init).run arr) (·.2)
+    (∀ c, usedIn p.P h c < p.L + maxIn p.P h c) ∧ overshootOk p.L p.P h = true := by
+  obtain ⟨s', lo', r'⟩ := byte_run_reachN p arr (ReachN.init (p := p)) hs hn
+  simp only [List.nil_append] at r'
+  have hb := fun c => mqtt_bytes_overshoot_lt_packet hL hP hT r' c
+  exact ⟨hb, by simp only [overshootOk, List.all_eq_true, decide_eq_true_eq]; exact fun e _ => hb _⟩
+
+/-- the request limiter asks one permit per packet: its run is the byte limiter's run over sizes 1 -/
+theorem request_run_eq_byte_run (p : Policy) : ∀ (arr : List (Int × Int)) (s : RL),
+    (Limiter.request p s).run arr = (Limiter.byte p s).run (arr.map (fun a => (a.1, 1)))
+  | [], _ => by simp [Limiter.run]
+  | (now, n) :: rest, s => by
+    simp only [Limiter.run, Limiter.acquire, List.map_cons]
+    rw [request_run_eq_byte_run p rest]
+
+/-- **MQTT request limiter over the whole packet sequence, in the judge's terms**: per period at most
+`requestRate` packets are admitted by `Limiter.run`; the judge's `requestsOk` accepts the run. -/
+theorem mqtt_request_run_bound {p : Policy} (hL : 0 < p.L) (hP : 0 < p.P) (hT : p.T = 0)
+    (arr : List (Int × Int)) (hs : Sorted 0 (arr.map (·.1))) :
+    let h := runHist arr ((Limiter.request p RateLimiter.init).run arr) (fun _ => 1)
+    (∀ c, usedIn p.P h c ≤ p.L) ∧ requestsOk p.L p.P h = true := by
+  have hs' : Sorted 0 ((arr.map (fun a => (a.1, (1 : Int)))).map (·.1)) := by
+    have : ((fun x : Int × Int => x.1) ∘ fun a : Int × Int => (a.1, (1 : Int))) = (fun x => x.1) := rfl
+    simpa [List.map_map, this] using hs
+  obtain ⟨s', lo', r'⟩ := byte_run_reachN p (arr.map (fun a => (a.1, 1))) (ReachN.init (p := p)) hs'
+    (fun a ha => by simp only [List.mem_map] at ha; obtain ⟨x, _, rfl⟩ := ha; exact Int.zero_le_ofNat 1)
+  simp only [List.nil_append] at r'
+  have heq : runHist (arr.map (fun a => (a.1, (1 : Int))))
+      ((Limiter.byte p RateLimiter.init).run (arr.map (fun a => (a.1, 1)))) (·.2) =
+      runHist arr ((Limiter.request p RateLimiter.init).run arr) (fun _ => 1) := by
+    rw [request_run_eq_byte_run]
+    simp [runHist, List.zip_map_left, List.map_map]
+  rw [heq] at r'
+  have hb := fun c => mqtt_request_bound hL hP hT r' (fun e he => by
+    simp only [runHist, List.mem_map] at he
+    obtain ⟨x, _, rfl⟩ := he
+    rfl) c
+  exact ⟨hb, by simp only [requestsOk, List.all_eq_true, decide_eq_true_eq]; exact fun e _ => hb _⟩
+
+/-- the judge's arrival times are non-decreasing from 0 (the hypothesis `Sorted 0` of the run theorems) -/
+theorem arrivalTimes_sorted : ∀ (n : Nat) (t : Int) (dts : List Int), Sorted t (arrivalTimes t dts n)
+  | 0, _, _ => by simp [arrivalTimes, Sorted]
+  | n + 1, t, dts => by
+    simp only [arrivalTimes, Sorted]
+    refine ⟨by split <;> omega, arrivalTimes_sorted n _ _⟩
+
+/-- the multi limiter `[requests, bytes]` over a whole packet sequence: both per-dimension histories are
+extended by the flag `Limiter.run` returned (one permit resp. `size` permits per packet) -/
+theorem multi_run_reachM (L0 L1 P : Int) : ∀ (arr : List (Int × Int)) {s h0 h1 lo}, ReachM L0 L1 P s h0 h1 lo →
+    Sorted lo (arr.map (·.1)) → (∀ a ∈ arr, 0 ≤ a.2) →
+    ∃ s' lo', ReachM L0 L1 P s'
+      (h0 ++ runHist arr ((Limiter.multi ⟨[L0, L1], P, 0⟩ s).run arr) (fun _ => 1))
+      (h1 ++ runHist arr ((Limiter.multi ⟨[L0, L1], P, 0⟩ s).run arr) (·.2)) lo'
+  | [], s, h0, h1, lo, r, _, _ => ⟨s, lo, by simpa [runHist] using r⟩
+  | (now, n) :: rest, s, h0, h1, lo, r, hs, hn => by
+    simp only [List.map_cons, Sorted] at hs
+    have hn0 : 0 ≤ n := hn (now, n) (List.mem_cons_self ..)
+    obtain ⟨s', lo', r'⟩ := multi_run_reachM L0 L1 P rest (ReachM.step now 1 n r hs.1 (by decide) hn0) hs.2
+      (fun a ha => hn a (List.mem_cons_of_mem _ ha))
+    refine ⟨s', lo', ?_⟩
+    simpa [runHist, Limiter.run, Limiter.acquire, List.append_assoc] using r'
+
+/-- **MQTT multi limiter over the whole packet sequence** (`requestRate` and `bytesRate` both set): per period
+`Limiter.run` admits at most `requestRate` packets, and the admitted bytes stay below `bytesRate` + the largest
+admitted packet; `overshootOk` accepts the byte history. -/
+theorem mqtt_multi_run_bounds {L0 L1 P : Int} (hL0 : 0 < L0) (hL1 : 0 < L1) (hP : 0 < P)
+    (arr : List (Int × Int)) (hs : Sorted 0 (arr.map (·.1))) (hn : ∀ a ∈ arr, 0 ≤ a.2) :
+    let flags := (Limiter.multi ⟨[L0, L1], P, 0⟩ (minit ⟨[L0, L1], P, 0⟩)).run arr
+    (∀ c, usedIn P (runHist arr flags (fun _ => 1)) c ≤ L0) ∧
+    (∀ c, usedIn P (runHist arr flags (·.2)) c < L1 + maxIn P (runHist arr flags (·.2)) c) ∧
+    overshootOk L1 P (runHist arr flags (·.2)) = true := by
+  obtain ⟨s', lo', r'⟩ := multi_run_reachM L0 L1 P arr (ReachM.init (L0 := L0) (L1 := L1) (P := P)) hs hn
+  simp only [List.nil_append] at r'
+  have hb := fun c => mqtt_multi_bounds hL0 hL1 hP r' c
+  refine ⟨fun c => (hb c).2.2 ?_, fun c => (hb c).2.1, ?_⟩
+  · intro e he
+    simp only [runHist, List.mem_map] at he
+    obtain ⟨x, _, rfl⟩ := he
+    rfl
+  · simp only [overshootOk, List.all_eq_true, decide_eq_true_eq]; exact fun e _ => (hb _).2.1
+
+/-- non-vacuity: 2 packets and 10 bytes per second; sizes 4, 7, 1 at t = 0 (the third packet is refused by the
+request dimension although bytes would fit), then 7 in the next second -/
+example :
+    let arr : List (Int × Int) := [(0, 4), (0, 7), (0, 1), (1000000000, 7)]
+    let flags := (Limiter.multi ⟨[2, 10], 1000000000, 0⟩ (minit ⟨[2, 10], 1000000000, 0⟩)).run arr
+    flags = [true, true, false, true] ∧ usedIn 1000000000 (runHist arr flags (·.2)) 0 = 11 ∧
+    Sorted 0 (arr.map (·.1)) := by
+  refine ⟨by decide, by decide, by simp [Sorted]⟩
+
+theorem arrivalTimes_length : ∀ (n : Nat) (t : Int) (dts : List Int), (arrivalTimes t dts n).length = n
+  | 0, _, _ => rfl
+  | n + 1, t, dts => by simp [arrivalTimes, arrivalTimes_length n]
+
+/-- **the MQTT judge's spec accepts the model** — for every `RateLimit` spec, every sequence of clock advances
+and every sequence of (non-negative) packet sizes, the run of whatever limiter `newLimiter` builds satisfies the
+two clauses the judge evaluates on the observed flags (`requestsOk` when `requestRate > 0`, `overshootOk` when
+`bytesRate > 0`, period = the configured whole seconds, at least 1). -/
+theorem mqtt_spec_accepts_model (sp : RateLimitSpec) (dts pk : List Int) (hpk : ∀ n ∈ pk, 0 ≤ n) :
+    let arr := (arrivalTimes 0 dts pk.length).zip pk
+    let P := (if sp.timePeriod > 0 then sp.timePeriod else 1) * second
+    let got := (newLimiter (some sp)).run arr
+    (0 < sp.requestRate → requestsOk sp.requestRate P (runHist arr got (fun _ => 1)) = true) ∧
+    (0 < sp.bytesRate → overshootOk sp.bytesRate P (runHist arr got (·.2)) = true) := by
+  intro arr P got
+  have hfst : arr.map (·.1) = arrivalTimes 0 dts pk.length := by
+    simp only [arr]
+    exact List.map_fst_zip (by rw [arrivalTimes_length])
+  have hs : Sorted 0 (arr.map (·.1)) := by rw [hfst]; exact arrivalTimes_sorted _ _ _
+  have hn : ∀ a ∈ arr, 0 ≤ a.2 := fun a ha => hpk a.2 (List.of_mem_zip (a := a.1) (b := a.2) ha).2
+  have hP : 0 < P := by
+    simp only [P, second]
+    split <;> omega
+  have hnl : newLimiter (some sp) =
+      if sp.requestRate = 0 ∧ sp.bytesRate = 0 then Limiter.none
+      else if sp.requestRate > 0 ∧ sp.bytesRate > 0 then
+        Limiter.multi ⟨[sp.requestRate, sp.bytesRate], P, 0⟩ (minit ⟨[sp.requestRate, sp.bytesRate], P, 0⟩)
+      else if sp.requestRate > 0 then Limiter.request ⟨sp.requestRate, P, 0⟩ RateLimiter.init
+      else if sp.bytesRate > 0 then Limiter.byte ⟨sp.bytesRate, P, 0⟩ RateLimiter.init
+      else Limiter.none := rfl
+  simp only [got, hnl]
+  clear_value P
+  split_ifs with h0 h1 h2 h3
+  · exact ⟨fun h => by omega, fun h => by omega⟩
+  · have hb := mqtt_multi_run_bounds h1.1 h1.2 hP arr hs hn
+    simp only at hb
+    refine ⟨fun _ => ?_, fun _ => hb.2.2⟩
+    simp only [requestsOk, List.all_eq_true, decide_eq_true_eq]
+    exact fun e _ => hb.1 _
+  · have hb := mqtt_request_run_bound (p := ⟨sp.requestRate, P, 0⟩) h2 hP rfl arr hs
+    exact ⟨fun _ => hb.2, fun h => by omega⟩
+  · have hb := mqtt_bytes_run_bound (p := ⟨sp.bytesRate, P, 0⟩) h3 hP rfl arr hs hn
+    exact ⟨fun h => by omega, fun _ => hb.2⟩
+  · exact ⟨fun h => by omega, fun h => by omega⟩
+
+/-- non-vacuity of the varied clock: request rate 2 per second, five packets at 0, 0, 0, 1 s, 1 s -/
+example :
+    let arr := (arrivalTimes 0 [0, 0, 0, 1000000000] 5).zip [3, 3, 3, 3, 3]
+    (newLimiter (some ⟨2, 0, 1⟩)).run arr = [true, true, false, true, true] ∧
+    requestsOk 2 1000000000 (runHist arr [true, true, true, true, true] (fun _ => 1)) = false := by
+  refine ⟨by decide, by decide⟩
+
 end Audit
 
 end EgVerif.C09
